@@ -1,7 +1,11 @@
 #!/usr/bin/env python3
 """Run checks against seeded property-breaking changes.
 
-  tools/seedrun.py [--tier quick|thorough] [--seed N] [--checks C01,C02] <seeded dir>...
+  tools/seedrun.py [--tier quick|thorough] [--seed N] [--checks C01,C02] [--lab DIR] <seeded dir>...
+
+--lab DIR: instead of /repo use the scratch copy made by `tools/scratch.sh new DIR` (DIR/repo is a
+git worktree of /repo, DIR/harness a copy of /verif/harness re-pointed at it and re-synchronised
+from /verif/harness before every run); lets seeded runs proceed while /repo is in use.
 
 For every /verif/seeded/<name>/ (patch.diff + meta.json): /repo must be clean; the patch is applied
 (git -C /repo apply), the check(s) of the property named in meta.json (or --checks) are run with the
@@ -13,6 +17,8 @@ Nothing is ever committed in /repo.
 import json, os, re, subprocess, sys, time
 
 ROOT = "/verif"
+REPO = "/repo"
+LAB = None
 
 
 def sh(cmd, **kw):
@@ -20,7 +26,7 @@ def sh(cmd, **kw):
 
 
 def repo_clean():
-    return sh(["git", "-C", "/repo", "status", "--porcelain", "--untracked-files=no"]).stdout.strip() == ""
+    return sh(["git", "-C", REPO, "status", "--porcelain", "--untracked-files=no"]).stdout.strip() == ""
 
 
 def added_files(patch):
@@ -31,9 +37,9 @@ def added_files(patch):
 
 
 def undo(patch):
-    sh(["git", "-C", "/repo", "checkout", "--", "."])
+    sh(["git", "-C", REPO, "checkout", "--", "."])
     for f in added_files(patch):
-        p = os.path.join("/repo", f)
+        p = os.path.join(REPO, f)
         if os.path.exists(p):
             os.remove(p)
 
@@ -47,11 +53,20 @@ def main():
             tier = argv[i + 1]; i += 2
         elif argv[i] == "--seed":
             seed = argv[i + 1]; i += 2
+        elif argv[i] == "--lab":
+            global REPO, LAB
+            LAB = os.path.abspath(argv[i + 1]); REPO = os.path.join(LAB, "repo"); i += 2
         elif argv[i] == "--checks":
             checks = argv[i + 1].split(","); i += 2
         else:
             dirs.append(argv[i]); i += 1
     rc_all = 0
+    if LAB:
+        # same base commit and same harness sources as /verif and /repo
+        head = sh(["git", "-C", "/repo", "rev-parse", "HEAD"]).stdout.strip()
+        sh(["git", "-C", REPO, "checkout", "-q", "--detach", head])
+        sh(["rsync", "-a", "--exclude", "target", "--exclude", "Cargo.toml", "--exclude", ".cargo", "/verif/harness/", os.path.join(LAB, "harness") + "/"])
+        sh(["cp", "/verif/known_findings.json", os.path.join(LAB, "out", "known_findings.json")])
     for d in dirs:
         d = os.path.abspath(d)
         patch = os.path.join(d, "patch.diff")
@@ -60,7 +75,7 @@ def main():
         if not repo_clean():
             print("refusing: /repo has uncommitted changes")
             return 3
-        r = sh(["git", "-C", "/repo", "apply", patch])
+        r = sh(["git", "-C", REPO, "apply", patch])
         if r.returncode != 0:
             print(f"{d}: patch does not apply: {r.stdout[-400:]}")
             undo(patch)
@@ -71,6 +86,8 @@ def main():
             for pid in ids:
                 t0 = time.time()
                 env = dict(os.environ, VERIF_EVIDENCE_DIR=os.path.join(d, "evidence"))
+                if LAB:
+                    env.update(VERIF_ROOT=os.path.join(LAB, "out"), VERIF_HARNESS=os.path.join(LAB, "harness"), VERIF_TARGET=os.path.join(LAB, "target"))
                 r = sh([os.path.join(ROOT, "check"), pid, "--tier", tier, "--seed", seed], env=env, cwd=ROOT)
                 sigs = re.findall(r"^  signature: (.*)$", r.stdout, re.M)
                 inc = re.findall(r"^INCONCLUSIVE .*reason=(.*)$", r.stdout, re.M)
